@@ -19,26 +19,43 @@ NAMES = st.one_of(
     st.integers(0, 3))
 
 
-def canon_box(b):
+def canon_box(b, word=True):
     k = b["k"]
     if k == "box":
         return ("box", b["name"], specs.skey_ty(b["dom"]),
                 specs.skey_ty(b["cod"]), bool(b.get("dag")), b.get("data"),
-                bool(b.get("word")))
+                bool(b.get("word")) and word)
     return (k, tuple(b["l"]), tuple(b["r"]))
 
 
-def canon(spec):
+def canon(spec, word=True):
     if "terms" in spec:
         return ("sum", specs.skey_ty(spec["dom"]), specs.skey_ty(spec["cod"]),
-                [canon(t) for t in spec["terms"]])
+                [canon(t, word) for t in spec["terms"]])
     return ("diagram", specs.skey_ty(spec["dom"]),
             specs.skey_ty(specs.spec_cod(spec)),
-            [(canon_box(b), off) for b, off in spec["layers"]])
+            [(canon_box(b, word), off) for b, off in spec["layers"]])
 
 
 def model_equal(sa, sb):
     return sa["cls"] == sb["cls"] and canon(sa) == canon(sb)
+
+
+def word_only(sa, sb):
+    """ The two specs differ only in that a box is a grammar Word in one and
+    a plain Box with the same name, domain, codomain, data and dagger flag in
+    the other. The property leaves open whether these are equal (the library
+    says they are); if they are, their hashes have to agree. """
+    return sa["cls"] == sb["cls"] and canon(sa) != canon(sb)\
+        and canon(sa, False) == canon(sb, False)
+
+
+def check_word_pair(a, b):
+    if lib_eq(a, b):
+        require(hash(a) == hash(b), "C03:hash-word-vs-box",
+                lambda: "{!r} == {!r} but hashes differ".format(a, b))
+    return dict(nt=True, labels=["word-vs-box"],
+                show="{!r} vs {!r}".format(a, b)[:400])
 
 
 def rename(spec, old, new):
@@ -84,6 +101,8 @@ def mutants(draw, spec):
     layers = spec["layers"]
     choices = ["same", "same", "rename", "box-name", "data", "dag",
                "offset", "drop", "append"]
+    if cls in gen.WORD_CLASSES:
+        choices += ["word"]
     if cls == "rigid":
         choices += ["shift-z", "shift-z"]
     kind = draw(st.sampled_from(choices))
@@ -106,10 +125,14 @@ def mutants(draw, spec):
         if names:
             return shift_z(spec, draw(st.sampled_from(names)),
                            draw(st.sampled_from([-1, 1]))), kind
-    if kind in ("box-name", "data", "dag") and boxes:
+    if kind == "word":
+        boxes = [i for i in boxes if isinstance(layers[i][0]["name"], str)]
+    if kind in ("box-name", "data", "dag", "word") and boxes:
         i = draw(st.sampled_from(boxes))
         b = dict(layers[i][0])
-        if kind == "box-name":
+        if kind == "word":
+            b["word"] = not b.get("word", False)
+        elif kind == "box-name":
             b["name"] = str(draw(NAMES)) if b.get("word") else draw(NAMES)
         elif kind == "data":
             b["data"] = draw(gen.payloads())
@@ -184,6 +207,8 @@ def lib_eq(x, y):
 def check_pair(case):
     sa, sb = case["a"], case["b"]
     a, b = specs.build(sa, case["ra"]), specs.build(sb, case["rb"])
+    if word_only(sa, sb):
+        return check_word_pair(a, b)
     expected = model_equal(sa, sb)
     got = lib_eq(a, b)
     require(got == expected,
@@ -300,7 +325,11 @@ def check_values(case):
     total = terms[0]
     for t in terms[1:]:
         total = total + t
-    if len(terms) > 1:
+    wordy = [(i, j) for i in range(len(terms)) for j in range(i)
+             if word_only(case["terms"][i], case["terms"][j])]
+    for i, j in wordy:
+        check_word_pair(terms[i], terms[j])
+    if len(terms) > 1 and not wordy:
         roundtrip(total, cls, "sum")
         swapped = terms[1]
         for t in [terms[0]] + terms[2:]:
@@ -382,6 +411,8 @@ def check_bubbles(case):
         ba, bb = a.bubble(dom=a.cod, cod=a.dom), b.bubble(dom=b.cod, cod=b.dom)
     else:
         ba, bb = a.bubble(), b.bubble()
+    if word_only(sa, sb):
+        return check_word_pair(ba, bb)
     expected = model_equal(sa, sb)
     require(lib_eq(ba, bb) == expected, "C03:bubble-eq-ignores-inside",
             lambda: "{!r} == {!r}".format(ba, bb))
